@@ -23,7 +23,7 @@ def wchoice(rng, items):
 def gen_names(rng, d, kind=None):
     kind = kind or wchoice(rng, [("str", 50), ("int", 15), ("float", 10), ("mixed", 25)])
     if kind == "str":
-        pool = ["a", "b", "c", "d", "e", "f", "g"]
+        pool = ["a", "b", "c", "d", "e", "f", "g", "h", "i", "j"]
         rng.shuffle(pool)
         return pool[:d], kind
     if kind == "int":
@@ -31,11 +31,11 @@ def gen_names(rng, d, kind=None):
         rng.shuffle(pool)
         return pool[:d], kind
     if kind == "float":
-        pool = [0.5, 1.5, 2.5, 3.25, 4.75, 5.125, 7.5]
+        pool = [0.5, 1.5, 2.5, 3.25, 4.75, 5.125, 7.5, 8.25, 9.5, 11.75]
         rng.shuffle(pool)
         return [name_to_json(v) for v in pool[:d]], kind
     # mixed: at least one str and one number when d >= 2 (all pairwise distinct under ==)
-    pool = ["a", "b", "c", 1, 2, 3, 0.5, 2.5, "x1"]
+    pool = ["a", "b", "c", 1, 2, 3, 0.5, 2.5, "x1", "y2", 7, 4.5]
     while True:
         rng.shuffle(pool)
         pick = pool[:d]
@@ -392,9 +392,13 @@ def strip_private(cfg):
     return cfg
 
 
-def gen_explainer_plan(rng, prop, focus, **kw):
+def gen_explainer_plan(rng, prop, focus, long=False, **kw):
+    if long:
+        # thorough-tier stratum: long histories and more features (float arithmetic keeps the numbers small)
+        kw.setdefault("arith", wchoice(rng, [("float", 70), ("npfloat", 30)]))
+        kw.setdefault("d", rng.randint(4, 8))
     cfg = gen_world_config(rng, focus, **kw)
-    ops = gen_schedule(rng, cfg)
+    ops = gen_schedule(rng, cfg, T=rng.randint(100, 320) if long else None)
     strip_private(cfg)
     return {"property": prop, "kind": "explainer", "config": cfg, "ops": ops, "rs0": rng.getrandbits(48)}
 
